@@ -66,6 +66,9 @@ def gen_spec(prop, rng, tier):
         if wl['profile'] == 'large':
             w['wall_limit'] = 120; w['p_hook_yield'] = min(w.get('p_hook_yield', 0), 2000)
         nt = gen.thread_count(rng)
+        if wl['profile'] == 'hirsch' and rng.random() < 0.6:
+            # the nested Hirschberg region only gets a real team when nesting is active and > 1 thread is asked for
+            w['max_active_levels'] = rng.choice([2, 2, 3]); nt = rng.choice([2, 2, 3, 4, 8])
         if w.get('max_active_levels', 1) > 1 and nt > 8:
             nt = rng.choice([2, 3, 4, 8])        # nested teams multiply: keep the product bounded
         spec['runs'].append({'variant': v, 'nthreads': nt, 'world': w, 'dec': None, 'pre': None})
